@@ -61,6 +61,9 @@ type Scenario struct {
 	Keep   map[string]string // files restored before every run when UsesFS
 	Raw    bool              // record raw stdout instead of probes (C17 through the executor)
 	Spec   any
+	// AfterRun, when set, is called after every complete (not pruned) execution, outside the
+	// scheduler, e.g. to run a follow-up invocation on the directory the execution left behind
+	AfterRun func(dir string, x *Exec)
 	// BodyFn, when set, replaces the Executor body: it is run as thread 0 under the scheduler
 	BodyFn func(dir string, x *Exec, raw *RawWriter)
 }
@@ -251,6 +254,9 @@ func (sc *Scenario) Runner(dir string) func(cfg vsched.Config) *Exec {
 		x.Code = ExitCode(x.Err, sc.Opts.ExitCodeFlag)
 		if x.Err != nil {
 			x.ErrStr = x.Err.Error()
+		}
+		if sc.AfterRun != nil && !x.Res.Deadlock && !x.Res.Horizon && x.Res.Panic == "" {
+			sc.AfterRun(dir, x)
 		}
 		return x
 	}
